@@ -34,6 +34,12 @@ func vNondetIncoming(name string, maxVal int) vIncoming {
 	return v
 }
 
+// vNondetIncomingRaw is vNondetIncoming without the validity assumption.
+func vNondetIncomingRaw(name string, maxVal int) vIncoming {
+	n := zz.Choice(name+".len", maxVal+1)
+	return vIncoming{ts: zz.NondetU64(name + ".ts"), flags: zz.NondetU32(name + ".flags"), val: zz.NondetBytes(name+".val", n)}
+}
+
 // vDeleted is the documented meaning of an incoming version under format fv.
 func (v vIncoming) deleted(fv uint32) bool {
 	return zz.Or(v.flags&1 != 0, fv < 2 && len(v.val) == 0)
